@@ -1,5 +1,5 @@
 """Re-run the property's quick check against every confirmed seeded change in /verif/seeded/<id>/patch.diff
-(git -C /repo apply; ./check; git -C /repo checkout -- .) and refresh meta.json / SUMMARY.json with what the check reports now."""
+(a scratch worktree of /repo with the patch as VERIF_REPO; harness/check.py) and refresh meta.json / SUMMARY.json with what the check reports now."""
 import glob, json, os, re, subprocess, sys
 
 
@@ -14,13 +14,17 @@ def main(only):
         if only and sid not in only and sid[:3] not in only:
             continue
         pid = sid[:3]
-        assert sh('git -C /repo diff --quiet').returncode == 0, '/repo not clean'
-        ap = sh('git -C /repo apply %s/patch.diff' % d)
+        wt = '/tmp/recheck_wt'
+        sh('git -C /repo worktree remove --force %s' % wt)
+        sh('git -C /repo worktree add -q --detach %s HEAD' % wt)
+        ap = sh('git -C %s apply %s/patch.diff' % (wt, d))
         if ap.returncode != 0:
             print(sid, 'PATCH DOES NOT APPLY', ap.stdout[-200:])
+            sh('git -C /repo worktree remove --force %s' % wt)
             continue
-        ck = sh('cd /verif && ./check %s --tier quick' % pid)
-        sh('git -C /repo checkout -- .')
+        env = 'PYTHONHASHSEED=0 PYTHONDONTWRITEBYTECODE=1 LC_ALL=C.UTF-8 TZ=UTC PYTHONPATH=%s VERIF_REPO=%s' % (wt, wt)
+        ck = sh('cd /verif && %s /venv/bin/python harness/check.py %s --tier quick' % (env, pid))
+        sh('git -C /repo worktree remove --force %s' % wt)
         lines = [l for l in ck.stdout.split('\n') if l.startswith('VIOLATION')]
         res = {'caught': ck.returncode == 1 and bool(lines),
                'with_failing_input': any('no-failing-input-found' not in l for l in lines),
